@@ -3,7 +3,7 @@ from __future__ import annotations
 
 import numpy as np
 
-from vf import gen, probes
+from vf import gen, plumbing, probes
 
 PID = "C09"
 ANCHORS = ["pyoma2.functions.gen:HC_conj", "pyoma2.functions.gen:HC_damp", "pyoma2.functions.gen:HC_phi_comp", "pyoma2.functions.gen:HC_cov",
@@ -25,7 +25,17 @@ ASSUMPTIONS = ["poles whose indicator lies within relative 1e-9 of a threshold, 
                "conjugate partner in another column only: not judged (the statement does not say whether the partner must be of the same order)"]
 
 
+PLUMB_CLASSES = ['SSIcov', 'SSIdat', 'pLSCF', 'SSIcov_MS', 'pLSCF_MS']
+PLUMB_FIELDS = ['Fn_poles', 'Xi_poles', 'Phi_poles', 'Lambds', 'Fn_poles_cov', 'Xi_poles_cov', 'Phi_poles_cov']
+REQUIRED_MONITORS = list(REQUIRED_MONITORS) + [f"plumbing:{s_}" for s_ in plumbing.SCENARIOS]
+REQUIRED_STATES = list(REQUIRED_STATES) + [f"plumbing scenario {s_}" for s_ in plumbing.SCENARIOS]
+
+
 def cases(tier, seed):
+    return _cases(tier, seed) + plumbing.cases(len(plumbing.SCENARIOS) * len(PLUMB_CLASSES) * (1 if tier == "quick" else 6), PLUMB_CLASSES)
+
+
+def _cases(tier, seed):
     n, ninj, nfn = (30, 12, 40) if tier == "quick" else (300, 120, 800)
     out = []
     for k in range(n):
@@ -451,6 +461,8 @@ def run_conj_fn(ctx, rng):
 
 
 def run_case(ctx, case):
+    if case["cls"] == "plumbing":
+        return plumbing.run_case(ctx, case, gen.rng_of(case), PLUMB_FIELDS)
     rng = gen.rng_of(case)
     if case["cls"] == "adaptive_thresholds":
         run_adaptive(ctx, case, rng)
